@@ -161,6 +161,11 @@ func (d *Disk) count(op string) {
 
 // hook is installed as simhook.Handler while a FileFS disk exists.
 func (d *Disk) hook(site string, key uint64) {
+	if strings.HasPrefix(site, "zed.context.") {
+		// Callers of the type context may hold their own mutex
+		// (meta.Lister): never park there.
+		return
+	}
 	if !strings.HasPrefix(site, "storage.file.") {
 		// In-process scheduling points (scan legs, merge/combine parents):
 		// park the calling goroutine under the run's query task, if any.
